@@ -131,6 +131,7 @@ def remap_case(ctx, suite, nq, nb, specs, perm, pre_passes=()):
 
 def check_remap(ctx, suite, item, mres):
     case, c, pre_ser, pre, err, post, f, before_copy, before_stmts = item
+    case_views_before = views(before_copy)
     ctx.seen(case, len(case["specs"]) > 0 and case["perm"] != sorted(case["perm"]))
     margin, r = mres
     merr, mpost = implrun.model_outcome(["map"], r)
@@ -168,6 +169,17 @@ def check_remap(ctx, suite, item, mres):
         if not ok:
             ctx.oracle_fail(suite, case, "operation is not the original conjugated by the permutation: " + why, eq)
             return
+    else:
+        import re
+
+        f_txt = lambda t: re.sub(r"q\[(\d+)\]", lambda m: f"q[{f(int(m.group(1)))}]", t)  # noqa: E731
+        v_after = views(c)
+        for k, before_txt in case_views_before.items():
+            if before_txt.startswith("raised") or "Anonymous gate" in before_txt:
+                continue
+            if f_txt(before_txt) != v_after[k]:
+                ctx.oracle_fail(suite, case, f"view {k} after mapping is not the view before with q[i] -> q[p(i)]:\n{v_after[k]}\n--- expected ---\n{f_txt(before_txt)}", eq)
+                return
     # p then p^-1 restores
     inv = [0] * len(case["perm"])
     for i, p in enumerate(case["perm"]):
@@ -203,7 +215,9 @@ def remap_suite(ctx):
             items.append(("random", it))
     # circuits produced by earlier passes, and by callbacks returning one object several times
     pre_choices = [[["decompose", "zyz"]], [["merge"]], [["decompose", "cnot"], ["merge"]],
-                   [["replace", "CNOT", "shared"]], [["replace", "CNOT", "cnot_to_hczh"], ["decompose", "mckay"]]]
+                   [["replace", "CNOT", "shared"]], [["replace", "CNOT", "cnot_to_hczh"], ["decompose", "mckay"]],
+                   [["replace", "CNOT", "shared"], ["merge"]], [["replace", "CNOT", "shared"], ["merge"], ["decompose", "zyz"]],
+                   [["replace", "CNOT", "shared"], ["decompose", "xyx"], ["merge"]]]
     for _ in range(ctx.pick(60, 600)):
         n = rng.randint(2, 4)
         perm = list(range(n))
